@@ -442,6 +442,23 @@ func (m *sim) apply(s *scriptScn, idx int, a act, r actRes, results []actRes) {
 			}
 		}
 		m.localClose(i)
+	case "open":
+		m.ev(i, fmt.Sprintf("(EvOpen %s)", coqfmt.N(uint64(a.ID))), obsOf(r, true))
+		m.note(i, "Open", r)
+		if a.ID != 0 && r.Kind == "ok" && !sd.cclosed[a.ID] {
+			sd.mapped[a.ID] = true
+		}
+	case "openrace":
+		// whichever comes first, Close or an Open: the connection ends up closed and every call on it fails;
+		// the model is run on "Close first", the order in which only Open itself can close the connection
+		m.note(i, "Open racing with Close", r)
+		m.ev(i, "EvClose", "OOk")
+		m.localClose(i)
+		for k := 0; k < a.N; k++ {
+			id := a.ID + uint32(k)
+			m.ev(i, fmt.Sprintf("(EvOpen %s)", coqfmt.N(uint64(id))), obsOf(r, true))
+			sd.mapped[id] = true
+		}
 	case "trunkclose":
 		m.orderly = false
 		m.ev(i, "EvTrunkDown", "ONone")
